@@ -604,17 +604,28 @@ impl LazySeq {
                 // only result in evaluating away instances where _another_ LazySeq is
                 // returned rather than a cons cell with a concrete first value. This
                 // loop will not consume the LazySeq in the rest position of the cons.
+                let mut innermost: Option<Py<PyAny>> = None;
                 loop {
                     if wrapped.bind(py).is_instance(lazy_seq_tp)? {
-                        wrapped = wrapped.call_method0(py, intern!(py, "_compute_seq"))?;
+                        let inner = wrapped;
+                        wrapped = inner.call_method0(py, intern!(py, "_compute_seq"))?;
+                        innermost = Some(inner);
                     } else {
                         break;
                     }
                 }
 
+                // If the value came out of a nested LazySeq, let that LazySeq coerce
+                // it to a seq (and cache the result) rather than coercing it again
+                // here: the value may be a raw iterable, and two coercions would open
+                // two independent iterators over it, one per LazySeq.
+                let result = match innermost {
+                    Some(inner) => inner.call_method0(py, intern!(py, "seq"))?,
+                    None => to_seq(py, wrapped.bind(py))?.unbind(),
+                };
+
                 // Mutably borrow the object again so we can update the inner state.
                 let mut state = mutex.borrow_mut();
-                let result = to_seq(py, wrapped.bind(py))?.unbind();
                 *state = LazySeqState::Realized(result.clone_ref(py));
                 Ok(result.clone_ref(py))
             }
